@@ -133,4 +133,20 @@ def symDist : Bytes → Bytes → Nat
   | a :: as, b :: bs => (if a = b then 0 else 1) + symDist as bs
   | _, _ => 0
 
+/-! ### stationary register (fixed points of the loop body of `generate`)
+
+The loop body is the affine map `step · x` on the 3-cell register.  For every feedback symbol `s` there is exactly one
+register it leaves unchanged (`Lemmas/RsStation.lean`); a message whose division reaches that register and continues
+with the symbol `fixSym s` has a loop pass that changes nothing.  The differential run constructs such messages for
+every `s` and every step (`stationary_msgs` in `harness/props/c11.py`). -/
+
+/-- the register `(parity[0], parity[1], parity[2])` that a loop pass with feedback symbol `s` leaves unchanged -/
+def fixOf (s : Nat) : Nat × Nat × Nat :=
+  let a := logMultiply (polyAt 0) s
+  let b := Nat.xor a (logMultiply (polyAt 1) s)
+  (a, b, Nat.xor b (logMultiply (polyAt 2) s))
+
+/-- the message octet under which `fixOf s` is stationary (feedback = octet xor `parity[2]`) -/
+def fixSym (s : Nat) : Nat := Nat.xor s (fixOf s).2.2
+
 end Dmr.Rs
